@@ -142,6 +142,68 @@ Proof.
 Qed.
 Print Assumptions C16_alias_columns.
 
+(* ---- the JOIN clause as written: aliases, ON qualifiers, key derivation (rsql/parser.go parseJoin) ---- *)
+
+(* ON fields: a field qualified by the table's alias -- for an un-aliased table: by the table's own
+   name -- or by the stream alias reads the bare column; a bare name is itself. (So "JOIN meta ON
+   deviceId = meta.deviceId" keys the table on deviceId, exactly as "JOIN meta m ON deviceId = m.deviceId".) *)
+Theorem C16_on_qualifiers : forall sa (j : jtext) (f : onfield),
+  (jt_alias j = None -> f_qual f = Some (jt_table j) -> strip_alias sa (eff_alias j) f = f_name f) /\
+  (forall a, jt_alias j = Some a -> f_qual f = Some a -> strip_alias sa (eff_alias j) f = f_name f) /\
+  (forall s, sa = Some s -> f_qual f = Some s -> strip_alias sa (eff_alias j) f = f_name f) /\
+  (f_qual f = None -> strip_alias sa (eff_alias j) f = f_name f).
+Proof.
+  intros sa j f. split; [|split; [|split]].
+  - exact (strip_alias_unaliased sa j f).
+  - intros a. exact (strip_alias_aliased sa j a f).
+  - intros s Hs. subst sa. exact (strip_alias_stream s (eff_alias j) f).
+  - exact (strip_alias_bare sa (eff_alias j) f).
+Qed.
+Print Assumptions C16_on_qualifiers.
+
+(* the key RegisterTable derives from "ON l = <alias or table name>.col" is [col] *)
+Theorem C16_derived_key : forall sa (j : jtext) l r, jt_on j = [(l, r)] -> f_qual r = Some (eff_alias j) ->
+  join_key_fields [parse_join_code sa j] (jt_table j) = Some [f_name r].
+Proof. exact derived_key_single. Qed.
+Print Assumptions C16_derived_key.
+
+(* from the SQL text on: for every query whose ON equalities are written stream = table (or carry no
+   deciding qualifier), every registration (keys derived from ON or explicit) and every history, the
+   code-level model (parse as the code does, index by encodeKey) returns exactly the outputs of the
+   abstract table under the meaning of the clause *)
+Theorem C16_refinement_sql : forall (q : qtext) (regs : list reg_call) (ops : list op),
+  well_oriented q = true -> model_run_sql q regs ops = spec_run_sql q regs ops.
+Proof. exact refinement_sql. Qed.
+Print Assumptions C16_refinement_sql.
+
+(* the meaning of ON is symmetric in "=" *)
+Theorem C16_on_symmetric : forall sa ta a b, swapped sa ta (a, b) = true ->
+  on_pair_spec sa ta (a, b) = on_pair_spec sa ta (b, a).
+Proof. exact on_pair_spec_sym. Qed.
+Print Assumptions C16_on_symmetric.
+
+(* ... the code is positional (finding F-C16-ON): "JOIN t m ON m.a = k" takes a for the stream field and k for
+   the table key; with t = [{a:1, v:7}] the row {k:2}, which has no match, is enriched with v = 7 *)
+Theorem C16_on_swapped_refuted : exists q regs ops,
+  well_oriented q = false /\ model_run_sql q regs ops <> spec_run_sql q regs ops.
+Proof.
+  exists sw_q, sw_regs, sw_ops. destruct swapped_on_refuted as [H0 [H1 H2]]. split; [exact H0|].
+  rewrite H1, H2. discriminate.
+Qed.
+Print Assumptions C16_on_swapped_refuted.
+
+(* ---- concurrent table updates ---- *)
+(* every Upsert / Delete / Lookup is one atomic step, so a concurrent run of two goroutines is a merge
+   of their operation sequences; for EVERY merge: what key k sees afterwards is what it sees after the
+   operations of the one goroutine alone, provided the other never writes a key equal to k. A lost
+   update, a resurrected row or a reverted replace under concurrent writers contradicts this. *)
+Theorem C16_concurrent_writers : forall c (ts : tables bytes) name keys k a b ops,
+  keys_of ts name = Some keys -> merge a b ops -> filter (touches keys name k) b = [] ->
+  lookup_in (final bytes bytes_eqb encodeKey c ts ops) name k =
+  lookup_in (final bytes bytes_eqb encodeKey c ts a) name k.
+Proof. exact concurrent_writers. Qed.
+Print Assumptions C16_concurrent_writers.
+
 (* ---- non-vacuity ---- *)
 (* 1 = 1.0 (= 4*2^-2), 1 <> '1', -0.0 = 0, 2^53 <> 2^53+1 (int/int and float/int), 1.5 = 3*2^-1 *)
 Example C16_key_examples :
@@ -169,3 +231,17 @@ Proof. reflexivity. Qed.
 Example C16_registered_example :
   keys_of (register_all bytes bytes_eqb encodeKey [([116]%N, [[97]%N], [])]) [116]%N = Some [[97]%N].
 Proof. reflexivity. Qed.
+
+(* merges exist: the concatenation is one *)
+Example C16_merge_example : forall a b, merge a b (a ++ b).
+Proof. exact merge_app. Qed.
+(* a well-oriented query: JOIN t ON k = t.a (no alias, table-name qualifier) *)
+Example C16_oriented_example :
+  let q := {| q_src_alias := None;
+              q_joins := [{| jt_table := [116]%N; jt_left := false; jt_alias := None;
+                             jt_on := [({| f_qual := None; f_name := [107]%N |},
+                                        {| f_qual := Some [116]%N; f_name := [97]%N |})] |}] |} in
+  well_oriented q = true /\
+  parse_code q = {| c_src_alias := None;
+                    c_joins := [{| j_table := [116]%N; j_left := false; j_alias := [116]%N; j_pairs := [([107]%N, [97]%N)] |}] |}.
+Proof. split; reflexivity. Qed.
